@@ -55,6 +55,17 @@ pub fn dispatch(args: &Args) -> i32 {
         if args.num("trace", 0) != 0 {
             r.trace = true;
         }
+        if args.get("trace") == Some("0") {
+            r.trace = false;
+        }
+        if args.get("trace") == Some("full") {
+            r.trace = true;
+            r.cheap_trace = false;
+        }
+        if let Some(k) = args.get("only_idx") {
+            r.only_idx = k.parse().ok();
+            r.trace = true;
+        }
         r.judge_panics = args.num("panics", 1) != 0;
         if let Some(p) = args.get("place") {
             r.force_place = Some(mem::Place::parse(p));
@@ -136,6 +147,7 @@ pub fn dispatch(args: &Args) -> i32 {
                     return 2;
                 }
             }
+            r.flush_histograms();
             r.rep.finish(bitmap_path.as_deref());
         }
         "C06" => {
